@@ -73,7 +73,9 @@ theorem split_payload (α bs : Bytes) (hα : α.length < 4294967296) :
 /-! ### The round trip -/
 
 /-- **C14, for an arbitrary muxer state.**  If `s` satisfies the reachability invariant `Inv` and is
-    `Accepted`, then `Assemble` succeeds with bytes `b` such that
+    `Accepted`, then either the extended file would exceed the readers' size limit (`¬ Fits s`) and
+    `Assemble` returns an error before writing anything, or `Assemble` succeeds with bytes `b` such that
+    (`RoundTrip s b`)
 
     * `b` is a well-formed RIFF/WebP container whose layout (`Spec.Riff.wellFormed`) is `expL s`;
     * `mux.NewDemuxer b` returns `expD s` and `container.NewParser b` returns `expP s`;
@@ -85,70 +87,68 @@ theorem split_payload (α bs : Bytes) (hα : α.length < 4294967296) :
     * the two Go parsers report the same structure (`ParserAgrees`; container.Parser does not read the
       EXIF/XMP chunks that follow a still's image — it only announces them through its flags).
 
-    `Accepted s` (decidable, `Webp.Proofs.MuxAccepted.accepted`) is: `validate s` passes, and two
-    conjuncts that `validate` does **not** enforce.  Each excluded region was run on the real
-    `mux.Muxer` + both Go parsers (harness suite `mux` and one-off probes, see the report):
+    `Accepted s` (decidable, `Webp.Proofs.MuxAccepted.accepted`) is: `validate s` passes, and **one**
+    conjunct that `validate` does not enforce:
 
-    1. `bitstreamOK`: every frame's bitstream (after an optional `ALPH` chunk) has a header that parses
-       (VP8: ≥ 10 bytes, key-frame bit, start code, non-zero 14-bit size; VP8L: ≥ 5 bytes, signature,
-       version 0).  Outside: `validate` skips frames whose size it cannot read, so `AddFrame({1,2,3})`
-       assembles a `VP8 ` chunk that no reader accepts (garbage in, garbage out — such data is not a
-       VP8/VP8L bitstream, i.e. outside the property's quantifier; the suite counts these).
-    2. extended format only: the exact RIFF size (`exactRiffSize`, computed without truncation) is
-       ≤ 2^32 − 10.  (For the simple format this follows from `validate`'s frame-size limit 2^32 − 22.)
-       Outside: above 2^32 − 1 `Assemble` returns an error before writing (`rejects_too_large`) unless a
-       single animation frame is within ~34 bytes of 4 GiB, whose `uint32(16 + subSize)` wraps — probed:
-       one 4 294 967 274-byte frame with `Duration: 1` is accepted and written with ANMF size 2 and RIFF
-       size 46 (corrupt); between 2^32 − 9 and 2^32 − 1 container.Parser's `MaxChunkPayload` check rejects
-       what the muxer wrote.
+    * `bitstreamOK`: every frame's bitstream (after an optional `ALPH` chunk) has a header that parses
+      (VP8: ≥ 10 bytes, key-frame bit, start code, non-zero 14-bit size; VP8L: ≥ 5 bytes, signature,
+      version 0).  Outside: `validate` skips frames whose size it cannot read, so `AddFrame({1,2,3})`
+      assembles a `VP8 ` chunk that no reader accepts (garbage in, garbage out — such data is not a
+      VP8/VP8L bitstream, i.e. outside the property's quantifier; the suite counts these cases).
 
-    Five further conjuncts were needed on the tree as first modelled; the real muxer violated the
-    property there, it was repaired (commits 217045d, 73510c8, dac085e, b6500d8, faa5452) and
-    `validate`/`needsVP8X` now enforce them: explicit canvas kept for stills, canvas area < 2^30, no ALPH
-    in front of VP8L (see `pinned_*` below for the pinned counterexamples), metadata blobs ≤ 100 MB and
-    frame data ≤ 2^32 − 22 bytes (too large for kernel evaluation; probed on the Go side by the suite's
-    `mux-probe` and a one-off 4 GiB probe). -/
+    `Fits s` (extended format: exact RIFF size ≤ 2^32 − 10 = `MaxChunkPayload`) is not a precondition
+    any more: when it fails, `assembleExtended`'s own checks return an error (`rejects_too_large`).
+
+    Seven further conjuncts were needed on the tree as first modelled; the real muxer violated the
+    property there and was repaired (217045d explicit canvas kept for stills; 73510c8 canvas area < 2^30;
+    dac085e no ALPH in front of VP8L; b6500d8 metadata ≤ 100 MB; faa5452 frame data ≤ 2^32 − 22;
+    03d14c3 ANMF size wrap and RIFF size in (2^32−10, 2^32−1]).  `pinned_*` below keep the first three
+    as kernel-checked counterexamples on the pinned model; the size-related ones need ≥ 100 MB / 4 GiB
+    inputs and were probed on the Go side (suite `mux-probe`, one-off 4 GiB probes). -/
 theorem mux_demux_state (s : MuxState) (inv : Inv s) (h : Accepted s) :
-    ∃ b, assemble s = .ok b ∧
-      Webp.Spec.Riff.wellFormed b = .ok (expL s) ∧ LayoutAgrees s (expL s) ∧
-      Demux.parseWith true b = .ok (expD s) ∧ DemuxAgrees s (expD s) ∧
-      Parser.parse b = .ok (expP s) ∧ ParserAgrees (expD s) (expP s) := by
-  have af := accepted_facts h
-  refine ⟨riffWrap (serAll (topChunks s)), assemble_eq s af.valid af.size, ?_, layoutAgrees_exp inv af, ?_,
-    demuxAgrees_exp inv af, ?_, parserAgrees_exp inv af⟩
-  · cases hx : needsVP8X s with
-    | true => exact Webp.Proofs.MuxWalker.walker_ext s inv af hx
-    | false =>
-      obtain ⟨f, st⟩ := simpleState af.valid hx
-      exact simple_walker st (af.framesOK f (by rw [st.frames]; exact List.mem_cons_self)) af.size
-  · cases hx : needsVP8X s with
-    | true => exact Webp.Proofs.MuxDemuxFinal.demux_ext s inv af hx
-    | false =>
-      obtain ⟨f, st⟩ := simpleState af.valid hx
-      exact simple_demux st (af.framesOK f (by rw [st.frames]; exact List.mem_cons_self)) af.size
-  · cases hx : needsVP8X s with
-    | true => exact Webp.Proofs.MuxParserExt.parser_ext s inv af hx
-    | false =>
-      obtain ⟨f, st⟩ := simpleState af.valid hx
-      exact simple_parser st (af.framesOK f (by rw [st.frames]; exact List.mem_cons_self)) af.size
+    (¬ Fits s ∧ assemble s = .err .other) ∨ (∃ b, assemble s = .ok b ∧ RoundTrip s b) := by
+  have hv : validate s = .ok () := by
+    unfold Accepted accepted at h
+    simp only [Bool.and_eq_true, decide_eq_true_eq] at h
+    exact h.1
+  by_cases hfit : Fits s
+  · exact Or.inr (roundTrip_of_fits s inv h hfit)
+  · refine Or.inl ⟨hfit, ?_⟩
+    unfold Fits at hfit
+    have hx : needsVP8X s = true := by
+      cases hx : needsVP8X s with
+      | true => rfl
+      | false => exact absurd (fun h' => by rw [hx] at h'; cases h') hfit
+    exact assemble_too_large s hv hx (by
+      have : ¬ exactRiffSize s ≤ 4294967286 := fun h' => hfit (fun _ => h')
+      omega)
 
 /-- **C14.**  For every history of public Muxer calls (`AddFrame`, `SetFrameDisposeMode`,
     `SetFrameDuration`, `SetLoopCount`, `SetCanvasSize`, `SetBackgroundColor`, `SetICCProfile`, `SetEXIF`,
-    `SetXMP`, `AddChunk`, in any order, any arguments) whose final state is `Accepted`: `Assemble`
-    succeeds, the file is a well-formed container, it demuxes back to what was put in, and both parsers of
-    the package report the same structure.  All frame counts (still, extended still, animation with any
-    number of frames), both codecs, all payload parities, every metadata subset.
-    See `mux_demux_state` for the meaning of each clause and of `Accepted`. -/
+    `SetXMP`, `AddChunk`, in any order, any arguments) whose final state is `Accepted`: either the file
+    would be too large and `Assemble` returns an error, or `Assemble` succeeds, the file is a well-formed
+    container, it demuxes back to what was put in, and both parsers of the package report the same
+    structure.  All frame counts (still, extended still, animation with any number of frames), both
+    codecs, all payload parities, every metadata subset.  See `mux_demux_state`. -/
 theorem mux_demux (ops : List MuxOp) (h : Accepted (run ops)) :
-    ∃ b d p l, assemble (run ops) = .ok b ∧
+    (¬ Fits (run ops) ∧ assemble (run ops) = .err .other) ∨
+    (∃ b d p l, assemble (run ops) = .ok b ∧
       Webp.Spec.Riff.wellFormed b = .ok l ∧ LayoutAgrees (run ops) l ∧
       Demux.parseWith true b = .ok d ∧ DemuxAgrees (run ops) d ∧
-      Parser.parse b = .ok p ∧ ParserAgrees d p := by
-  obtain ⟨b, h1, h2, h3, h4, h5, h6, h7⟩ := mux_demux_state (run ops) (run_inv ops) h
-  exact ⟨b, _, _, _, h1, h2, h3, h4, h5, h6, h7⟩
+      Parser.parse b = .ok p ∧ ParserAgrees d p) := by
+  rcases mux_demux_state (run ops) (run_inv ops) h with h1 | ⟨b, h1, h2, h3, h4, h5, h6, h7⟩
+  · exact Or.inl h1
+  · exact Or.inr ⟨b, _, _, _, h1, h2, h3, h4, h5, h6, h7⟩
 
-/-- "What the muxer rejects it rejects with an error": `Assemble` runs `validate` before anything is
-    written, and a `validate` error is the result of `Assemble`.  (In the model a result is either bytes
+/-- whenever `Assemble` succeeds on an accepted state, the bytes it wrote round-trip -/
+theorem mux_demux_ok (s : MuxState) (inv : Inv s) (h : Accepted s) (b : Bytes) (hb : assemble s = .ok b) :
+    RoundTrip s b := by
+  rcases mux_demux_state s inv h with ⟨_, h1⟩ | ⟨b', h1, h2⟩
+  · rw [h1] at hb; cases hb
+  · rw [h1] at hb; cases hb; exact h2
+
+/-- "What the muxer rejects it rejects with an error", part 1: `Assemble` runs `validate` before anything
+    is written, and a `validate` error is the result of `Assemble`.  (In the model a result is either bytes
     or an error; that the Go writer has received nothing when an error is returned is checked by the
     `mux` suite: the buffer must be empty whenever `Assemble` returns an error.) -/
 theorem validate_before_write (s : MuxState) (e : Mux.Err) (h : validate s = .err e) : assemble s = .err e := by
@@ -156,29 +156,23 @@ theorem validate_before_write (s : MuxState) (e : Mux.Err) (h : validate s = .er
   rw [h]
   rfl
 
-/-- The other half of "rejects with an error": an extended file whose RIFF payload would not fit 32 bits
-    is refused by `assembleExtended`'s own check, before anything is written — as long as no single
-    frame's chunk size wraps (`frameLen` is the untruncated size of the frame's chunk(s)). -/
+/-- Part 2: an extended file whose RIFF payload would exceed 2^32 − 10 (what every reader accepts) is
+    refused by `assembleExtended`'s own checks — the per-frame ANMF size check and the total — before
+    anything is written.  No side condition on frame sizes is needed any more. -/
 theorem rejects_too_large (s : MuxState) (hv : validate s = .ok ()) (hx : needsVP8X s = true)
-    (hf : ∀ f ∈ s.frames, frameLen (isAnimated s) f.data < 4294967296)
-    (hbig : exactRiffSize s > 4294967295) : assemble s = .err .other := by
-  have vf := Webp.Proofs.MuxValidate.validate_facts hv
-  have hm : Parser.maxMetadataSize = 104857600 := rfl
-  have hopt : ∀ o : Option Bytes, (o.getD []).length ≤ Parser.maxMetadataSize → optLen o < 4294967296 := by
-    intro o h
-    cases o with
-    | none => simp [optLen]
-    | some d => simp only [Option.getD_some] at h; simp only [optLen, padLen]; omega
-  exact assemble_too_large s hv hx (hopt _ vf.icc) (hopt _ vf.exif) (hopt _ vf.xmp) hf hbig
+    (hbig : exactRiffSize s > 4294967286) : assemble s = .err .other :=
+  assemble_too_large s hv hx hbig
 
 /-! ### C15 (muxer half): metadata -/
 
 /-- A blob set under ICCP / EXIF / XMP (any bytes, including chunk-like ones; empty non-nil blobs too;
-    `validate` refuses blobs above 100 MB) is returned byte for byte by the demuxer (`iccData`/`exifData`/`xmpData`, i.e. `GetChunk`),
-    absent blobs are reported absent, and the VP8X flags announce exactly the blobs that are present;
-    container.Parser lists the ICCP chunk always and EXIF/XMP for animations. -/
-theorem metadata_readback (ops : List MuxOp) (h : Accepted (run ops)) :
-    ∃ b d p, assemble (run ops) = .ok b ∧ Demux.parseWith true b = .ok d ∧ Parser.parse b = .ok p ∧
+    `validate` refuses blobs above 100 MB) is returned byte for byte by the demuxer
+    (`iccData`/`exifData`/`xmpData`, i.e. `GetChunk`), absent blobs are reported absent, and the VP8X flags
+    announce exactly the blobs that are present; container.Parser lists the ICCP chunk always and EXIF/XMP
+    for animations.  For every accepted history on which `Assemble` succeeds. -/
+theorem metadata_readback (ops : List MuxOp) (h : Accepted (run ops)) (b : Bytes)
+    (hb : assemble (run ops) = .ok b) :
+    ∃ d p, Demux.parseWith true b = .ok d ∧ Parser.parse b = .ok p ∧
       d.iccData = (run ops).iccData ∧ d.exifData = (run ops).exifData ∧ d.xmpData = (run ops).xmpData ∧
       d.features.hasICC = (run ops).iccData.isSome ∧ d.features.hasEXIF = (run ops).exifData.isSome ∧
       d.features.hasXMP = (run ops).xmpData.isSome ∧
@@ -186,10 +180,10 @@ theorem metadata_readback (ops : List MuxOp) (h : Accepted (run ops)) :
       p.features.hasXMP = (run ops).xmpData.isSome ∧
       pMeta p ccICCP = (run ops).iccData ∧
       (isAnimated (run ops) = true → pMeta p ccEXIF = (run ops).exifData ∧ pMeta p ccXMP = (run ops).xmpData) := by
-  obtain ⟨b, h1, _, _, h4, h5, h6, h7⟩ := mux_demux_state (run ops) (run_inv ops) h
+  obtain ⟨_, _, h4, h5, h6, h7⟩ := mux_demux_ok (run ops) (run_inv ops) h b hb
   obtain ⟨_, _, _, hA, _, _, d1, d2, d3, d4, d5, d6⟩ := h5
   obtain ⟨_, _, _, _, _, p1, p2, p3, p4, p5, _⟩ := h7
-  refine ⟨b, _, _, h1, h4, h6, d1, d2, d3, d4, d5, d6, ?_, ?_, ?_, ?_, ?_⟩
+  refine ⟨_, _, h4, h6, d1, d2, d3, d4, d5, d6, ?_, ?_, ?_, ?_, ?_⟩
   · rw [p1, d1]
   · rw [p2, d2]
   · rw [p3, d3]
@@ -203,12 +197,11 @@ theorem metadata_readback (ops : List MuxOp) (h : Accepted (run ops)) :
     change what the demuxer returns for the frames: bitstream bytes, ALPH payloads and all per-frame
     fields are a function of the frame list only. -/
 theorem image_chunk_independent (s s' : MuxState) (inv : Inv s) (inv' : Inv s') (h : Accepted s) (h' : Accepted s')
-    (hf : s.frames = s'.frames) :
-    ∃ b b' d d', assemble s = .ok b ∧ assemble s' = .ok b' ∧
-      Demux.parseWith true b = .ok d ∧ Demux.parseWith true b' = .ok d' ∧ d.frames = d'.frames := by
-  obtain ⟨b, h1, _, _, h4, _⟩ := mux_demux_state s inv h
-  obtain ⟨b', h1', _, _, h4', _⟩ := mux_demux_state s' inv' h'
-  exact ⟨b, b', _, _, h1, h1', h4, h4', by simp only [expD, hf]⟩
+    (hf : s.frames = s'.frames) (b b' : Bytes) (hb : assemble s = .ok b) (hb' : assemble s' = .ok b') :
+    ∃ d d', Demux.parseWith true b = .ok d ∧ Demux.parseWith true b' = .ok d' ∧ d.frames = d'.frames := by
+  obtain ⟨_, _, h4, _⟩ := mux_demux_ok s inv h b hb
+  obtain ⟨_, _, h4', _⟩ := mux_demux_ok s' inv' h' b' hb'
+  exact ⟨_, _, h4, h4', by simp only [expD, hf]⟩
 
 /-! ### Pinned counterexamples (the muxer before the three repairs) and non-vacuity -/
 
@@ -278,9 +271,10 @@ example : needsVP8X (run exStill) = false ∧ isAnimated (run exAnim) = true ∧
 
 /-- the theorem applies to them, e.g. the animation's first duration was edited retroactively and its
     second offset comes back rounded down to even -/
-example : ∃ b d, assemble (run exAnim) = .ok b ∧ Demux.parseWith true b = .ok d ∧ DemuxAgrees (run exAnim) d :=
-  let ⟨b, d, _, _, h1, _, _, h4, h5, _⟩ := mux_demux exAnim (by decide +kernel)
-  ⟨b, d, h1, h4, h5⟩
+example : Fits (run exAnim) := by decide +kernel
+example : ∃ b, assemble (run exAnim) = .ok b ∧ RoundTrip (run exAnim) b :=
+  (mux_demux_state (run exAnim) (run_inv exAnim) (by decide +kernel)).resolve_left
+    (fun h => h.1 (by decide +kernel))
 
 example : (expD (run exAnim)).frames.map (fun f => (f.offsetX, f.duration, f.blendNone, f.disposeBG)) =
     [(0, 90, false, false), (2, 70, true, true)] := by decide +kernel
